@@ -267,3 +267,23 @@ def kwargs_with(cls, attr):
             break
     _WITH[key] = res
     return res
+
+
+def defined_classes():
+    """every concrete aggregate class *defined* in the ofxtools.models sub-modules (whether or not the package exports it)"""
+    out, seen, todo = [], set(), [Aggregate]
+    while todo:
+        c = todo.pop()
+        for sub in c.__subclasses__():
+            if sub in seen:
+                continue
+            seen.add(sub)
+            todo.append(sub)
+            if (sub.__module__ or "").startswith("ofxtools.models") and sub.__name__.isupper() and sub not in (Aggregate, ElementList):
+                out.append(sub)
+    return sorted(out, key=lambda c: c.__name__)
+
+
+def renamed_attrs(cls):
+    """attributes whose wire tag differs from the upper-cased attribute name (groom / ungroom renames)"""
+    return [a for a, t in wire_tags(cls).items() if t != a.upper()]
